@@ -101,7 +101,7 @@ def form_gen(rng, tid, boundary):
 
 def mk(rng):
     tid = rng.randrange(4)
-    boundary = rng.choice(['XbX', '----WebKitFormBoundary7MA4YWxkTrZu0gW', 'b', "a'()+_,-./:=?", '0' * 70, 'boundary'])
+    boundary = rng.choice(['XbX', '----WebKitFormBoundary7MA4YWxkTrZu0gW', 'b', "a'()+_,-./:=?", '0' * 70, 'boundary', 'AaB03x--', '--', '----form--', '-'])          # a boundary token may itself end in two hyphens
     parts, expected = form_gen(rng, tid, boundary)
     while any(('--' + boundary).encode() in p[3] for p in parts): boundary += 'Zq9'        # a conforming encoder picks a delimiter that occurs in no part
     body = encode(boundary, parts, rng, optional=rng.random() < 0.5)
